@@ -45,3 +45,231 @@ Theorem C05_block_size_zero_panics :
   forall (T : Type) (O : Ops T) (a b : list T) (ra rb : nat) (ta tb : bool),
     matmul_blocked O a b ra rb ta tb 0 = None.
 Proof. exact @matmul_blocked_zero_block. Qed.
+
+(** ** The [Dot] trait: 16 impl families (Matrix.Matrix, Matrix.Vector, Vector.Matrix, Vector.Vector x
+    dot / t_dot / dot_t / t_dot_t; the owned and borrowed forms of a family run the same code) — extension.
+    For every carrier and every operations record (no algebraic law), for ALL shapes: the model returns [Some] exactly on
+    the conformable shapes (a Vector operand promoted to a column on the right / a row on the left) and the result is
+    the definition — entry (i,j) is the left-to-right sum over the inner index k of op(A)[i,k] * op(B)[k,j]
+    ([is_product] / [is_matvec] / [is_vecmat] of Spec/MatMul.v and Proofs/C05_dot.v; [sumk] accumulates from zero) —
+    and [None] (a panic) otherwise.  Matrix operands satisfy the struct invariant [wf_matrix] (0 < nrows, 0 < ncols,
+    data.len() = nrows * ncols: every constructor of the crate establishes it). *)
+From Coq Require Import ZArith Lia.
+From Compute Require Import Proofs.C05_dot.
+
+(** Matrix.dot(Matrix) = A.B *)
+Theorem C05_dot_MM_dot :
+  forall (T : Type) (O : Ops T) (s o : @matrix T),
+    wf_matrix s -> wf_matrix o ->
+    if nc s =? nr o
+    then exists r, mat_mat_dot O DotNN s o = Some r /\ nr r = nr s /\ nc r = nc o /\
+                   is_product O false (dat s) (dat o) (nc s) (nc o) false false (nr s) (nc s) (nc o) (dat r)
+    else mat_mat_dot O DotNN s o = None.
+Proof. exact @dot_MM_dot. Qed.
+
+(** Matrix.t_dot(Matrix) = A^T.B *)
+Theorem C05_dot_MM_t_dot :
+  forall (T : Type) (O : Ops T) (s o : @matrix T),
+    wf_matrix s -> wf_matrix o ->
+    if nr s =? nr o
+    then exists r, mat_mat_dot O DotTN s o = Some r /\ nr r = nc s /\ nc r = nc o /\
+                   is_product O false (dat s) (dat o) (nc s) (nc o) true false (nc s) (nr s) (nc o) (dat r)
+    else mat_mat_dot O DotTN s o = None.
+Proof. exact @dot_MM_t_dot. Qed.
+
+(** Matrix.dot_t(Matrix) = A.B^T *)
+Theorem C05_dot_MM_dot_t :
+  forall (T : Type) (O : Ops T) (s o : @matrix T),
+    wf_matrix s -> wf_matrix o ->
+    if nc s =? nc o
+    then exists r, mat_mat_dot O DotNT s o = Some r /\ nr r = nr s /\ nc r = nr o /\
+                   is_product O false (dat s) (dat o) (nc s) (nc o) false true (nr s) (nc s) (nr o) (dat r)
+    else mat_mat_dot O DotNT s o = None.
+Proof. exact @dot_MM_dot_t. Qed.
+
+(** Matrix.t_dot_t(Matrix) = A^T.B^T (computed as (B.A)^T: the factors of each term are commuted, [is_product O true]; see C05_dot_MM_t_dot_t_commutative) *)
+Theorem C05_dot_MM_t_dot_t :
+  forall (T : Type) (O : Ops T) (s o : @matrix T),
+    wf_matrix s -> wf_matrix o ->
+    if nr s =? nc o
+    then exists r, mat_mat_dot O DotTT s o = Some r /\ nr r = nc s /\ nc r = nr o /\
+                   is_product O true (dat s) (dat o) (nc s) (nc o) true true (nc s) (nr s) (nr o) (dat r)
+    else mat_mat_dot O DotTT s o = None.
+Proof. exact @dot_MM_t_dot_t. Qed.
+
+(** Matrix.dot(Vector) = A.v (the Vector is a column; a transpose flag on it does nothing) *)
+Theorem C05_dot_MV_dot :
+  forall (T : Type) (O : Ops T) (s : @matrix T) (v : list T),
+    wf_matrix s ->
+    if nc s =? length v
+    then exists c, mat_vec_dot O DotNN s v = Some c /\ is_matvec O (dat s) (nc s) false v (nr s) (nc s) c
+    else mat_vec_dot O DotNN s v = None.
+Proof. exact @dot_MV_dot. Qed.
+
+(** Matrix.t_dot(Vector) = A^T.v (the Vector is a column; a transpose flag on it does nothing) *)
+Theorem C05_dot_MV_t_dot :
+  forall (T : Type) (O : Ops T) (s : @matrix T) (v : list T),
+    wf_matrix s ->
+    if nr s =? length v
+    then exists c, mat_vec_dot O DotTN s v = Some c /\ is_matvec O (dat s) (nc s) true v (nc s) (nr s) c
+    else mat_vec_dot O DotTN s v = None.
+Proof. exact @dot_MV_t_dot. Qed.
+
+(** Matrix.dot_t(Vector) = A.v (the Vector is a column; a transpose flag on it does nothing) *)
+Theorem C05_dot_MV_dot_t :
+  forall (T : Type) (O : Ops T) (s : @matrix T) (v : list T),
+    wf_matrix s ->
+    if nc s =? length v
+    then exists c, mat_vec_dot O DotNT s v = Some c /\ is_matvec O (dat s) (nc s) false v (nr s) (nc s) c
+    else mat_vec_dot O DotNT s v = None.
+Proof. exact @dot_MV_dot_t. Qed.
+
+(** Matrix.t_dot_t(Vector) = A^T.v (the Vector is a column; a transpose flag on it does nothing) *)
+Theorem C05_dot_MV_t_dot_t :
+  forall (T : Type) (O : Ops T) (s : @matrix T) (v : list T),
+    wf_matrix s ->
+    if nr s =? length v
+    then exists c, mat_vec_dot O DotTT s v = Some c /\ is_matvec O (dat s) (nc s) true v (nc s) (nr s) c
+    else mat_vec_dot O DotTT s v = None.
+Proof. exact @dot_MV_t_dot_t. Qed.
+
+(** Vector.dot(Matrix) = v.B (the Vector is a row; a transpose flag on it does nothing) *)
+Theorem C05_dot_VM_dot :
+  forall (T : Type) (O : Ops T) (v : list T) (o : @matrix T),
+    wf_matrix o ->
+    if length v =? nr o
+    then exists c, vec_mat_dot O DotNN v o = Some c /\ is_vecmat O v (dat o) (nc o) false (nr o) (nc o) c
+    else vec_mat_dot O DotNN v o = None.
+Proof. exact @dot_VM_dot. Qed.
+
+(** Vector.t_dot(Matrix) = v.B (the Vector is a row; a transpose flag on it does nothing) *)
+Theorem C05_dot_VM_t_dot :
+  forall (T : Type) (O : Ops T) (v : list T) (o : @matrix T),
+    wf_matrix o ->
+    if length v =? nr o
+    then exists c, vec_mat_dot O DotTN v o = Some c /\ is_vecmat O v (dat o) (nc o) false (nr o) (nc o) c
+    else vec_mat_dot O DotTN v o = None.
+Proof. exact @dot_VM_t_dot. Qed.
+
+(** Vector.dot_t(Matrix) = v.B^T (the Vector is a row; a transpose flag on it does nothing) *)
+Theorem C05_dot_VM_dot_t :
+  forall (T : Type) (O : Ops T) (v : list T) (o : @matrix T),
+    wf_matrix o ->
+    if length v =? nc o
+    then exists c, vec_mat_dot O DotNT v o = Some c /\ is_vecmat O v (dat o) (nc o) true (nc o) (nr o) c
+    else vec_mat_dot O DotNT v o = None.
+Proof. exact @dot_VM_dot_t. Qed.
+
+(** Vector.t_dot_t(Matrix) = v.B^T (the Vector is a row; a transpose flag on it does nothing) *)
+Theorem C05_dot_VM_t_dot_t :
+  forall (T : Type) (O : Ops T) (v : list T) (o : @matrix T),
+    wf_matrix o ->
+    if length v =? nc o
+    then exists c, vec_mat_dot O DotTT v o = Some c /\ is_vecmat O v (dat o) (nc o) true (nc o) (nr o) c
+    else vec_mat_dot O DotTT v o = None.
+Proof. exact @dot_VM_t_dot_t. Qed.
+
+Theorem C05_dot_VV_dot :
+  forall (T : Type) (O : Ops T) (v w : list T),
+    vec_vec_dot O DotNN v w =
+    if length v =? length w then Some (dot_chunks O (zero O) (map2 (mul O) v w) (S (length v))) else None.
+Proof. exact @dot_VV_dot. Qed.
+
+Theorem C05_dot_VV_t_dot :
+  forall (T : Type) (O : Ops T) (v w : list T),
+    vec_vec_dot O DotTN v w =
+    if length v =? length w then Some (dot_chunks O (zero O) (map2 (mul O) v w) (S (length v))) else None.
+Proof. exact @dot_VV_t_dot. Qed.
+
+Theorem C05_dot_VV_dot_t :
+  forall (T : Type) (O : Ops T) (v w : list T),
+    vec_vec_dot O DotNT v w =
+    if length v =? length w then Some (dot_chunks O (zero O) (map2 (mul O) v w) (S (length v))) else None.
+Proof. exact @dot_VV_dot_t. Qed.
+
+Theorem C05_dot_VV_t_dot_t :
+  forall (T : Type) (O : Ops T) (v w : list T),
+    vec_vec_dot O DotTT v w =
+    if length v =? length w then Some (dot_chunks O (zero O) (map2 (mul O) v w) (S (length v))) else None.
+Proof. exact @dot_VV_t_dot_t. Qed.
+
+(** Vector.Vector: all four methods are the 8-way unrolled inner product [dot_chunks] (per chunk of eight the products are
+    summed left to right from the first one and the chunk sum is added to the accumulator; the remaining products are added
+    one by one); different lengths panic.  Below eight elements that is the plain left-to-right sum from zero; on the reals
+    it is the sum of the products at every length *)
+Theorem C05_dot_VV_short :
+  forall (T : Type) (O : Ops T) (s : T) (p : list T) (fuel : nat),
+    length p < 8 -> dot_chunks O s p (S fuel) = fold_left (add O) p s.
+Proof. exact @dot_chunks_short. Qed.
+Theorem C05_dot_VV_R :
+  forall (k : dotk) (v w : list Rdefinitions.R),
+    vec_vec_dot RO k v w = if length v =? length w then Some (Spec.Vops.Rdot v w) else None.
+Proof. exact dot_VV_R. Qed.
+
+(** where multiplication commutes (reals; binary64 bit for bit, both below) the both-transposed Matrix.Matrix product has
+    its factors in the textbook order too *)
+Theorem C05_dot_MM_t_dot_t_commutative :
+  forall (T : Type) (O : Ops T), (forall p q : T, mul O p q = mul O q p) ->
+  forall (s o : @matrix T), wf_matrix s -> wf_matrix o ->
+    if nr s =? nc o
+    then exists r, mat_mat_dot O DotTT s o = Some r /\ nr r = nc s /\ nc r = nr o /\
+                   is_product O false (dat s) (dat o) (nc s) (nc o) true true (nc s) (nr s) (nr o) (dat r)
+    else mat_mat_dot O DotTT s o = None.
+Proof. exact @dot_MM_t_dot_t_commutative. Qed.
+Theorem C05_mul_commutes_R : forall a b : Rdefinitions.R, mul RO a b = mul RO b a.
+Proof. exact mul_comm_R. Qed.
+Theorem C05_mul_commutes_binary64 :
+  forall (tbl : libm_table) (a b : PrimFloat.float), mul (FO tbl) a b = mul (FO tbl) b a.
+Proof. exact mul_comm_binary64. Qed.
+
+(** ** [xtx] = X^T X of a [k]-row matrix: accepted exactly when [k > 0] divides the length; entry (i,j) is the left-to-right
+    sum over the rows r of X[r,i] * X[r,j]; symmetric wherever multiplication commutes *)
+Theorem C05_xtx_spec :
+  forall (T : Type) (O : Ops T) (x : list T) (k : nat),
+    if (0 <? k) && (length x mod k =? 0)
+    then exists c, xtx O x k = Some c /\
+           let n := length x / k in
+           length c = n * n /\
+           forall i j, i < n -> j < n ->
+             nth (i * n + j) c (zero O) = sumk O (fun r => mul O (nth (r * n + i) x (zero O)) (nth (r * n + j) x (zero O))) k
+    else xtx O x k = None.
+Proof. exact @xtx_spec. Qed.
+Theorem C05_xtx_symmetric :
+  forall (T : Type) (O : Ops T) (x : list T) (k : nat) (c : list T),
+    (forall a b : T, mul O a b = mul O b a) ->
+    xtx O x k = Some c ->
+    let n := length x / k in
+    forall i j, i < n -> j < n -> nth (i * n + j) c (zero O) = nth (j * n + i) c (zero O).
+Proof. exact @xtx_symmetric. Qed.
+Theorem C05_xtx_symmetric_R :
+  forall (x : list Rdefinitions.R) (k : nat) (c : list Rdefinitions.R),
+    xtx RO x k = Some c ->
+    let n := length x / k in
+    forall i j, i < n -> j < n -> nth (i * n + j) c (zero RO) = nth (j * n + i) c (zero RO).
+Proof. exact (fun x k c => xtx_symmetric RO x k c mul_comm_R). Qed.
+Theorem C05_xtx_symmetric_binary64 :
+  forall (tbl : libm_table) (x : list PrimFloat.float) (k : nat) (c : list PrimFloat.float),
+    xtx (FO tbl) x k = Some c ->
+    let n := length x / k in
+    forall i j, i < n -> j < n -> nth (i * n + j) c (zero (FO tbl)) = nth (j * n + i) c (zero (FO tbl)).
+Proof. exact (fun tbl x k c => xtx_symmetric (FO tbl) x k c (mul_comm_binary64 tbl)). Qed.
+
+(** the hypotheses are satisfiable on non-trivial instances (integers as the carrier: subtraction-free but
+    order-revealing): a 2x3 by 3x2 product, a rejected pair, a Matrix.Vector and a Vector.Matrix product with their
+    rejections, an inner product longer than one chunk, X^T X of a 3x2 matrix *)
+Example C05_example_dot :
+  let ZO : Ops Z := mkOps Z 0%Z 1%Z Z.add Z.sub Z.mul Z.div Z.opp Z.abs (fun x => x) Z.ltb Z.leb Z.eqb
+                             (fun x => x) (fun _ => 0%Z) (fun x => x) (fun _ => 0%Z) (fun _ x => x) (fun _ x _ => x) 3%Z in
+  let A := @Build_matrix Z 2 3 [1; 2; 3; 4; 5; 6]%Z in let B := @Build_matrix Z 3 2 [1; 0; 0; 1; 2; 2]%Z in
+  wf_matrix A /\ wf_matrix B /\
+  option_map (@dat _) (mat_mat_dot ZO DotNN A B) = Some [7; 8; 16; 17]%Z /\
+  mat_mat_dot ZO DotNN A A = None /\
+  option_map (@dat _) (mat_mat_dot ZO DotTT A B) = Some [1; 4; 10; 2; 5; 14; 3; 6; 18]%Z /\
+  mat_vec_dot ZO DotNN A [1; 1; 1]%Z = Some [6; 15]%Z /\ mat_vec_dot ZO DotNN A [1; 1]%Z = None /\
+  mat_vec_dot ZO DotTN A [1; 10]%Z = Some [41; 52; 63]%Z /\
+  vec_mat_dot ZO DotNN [1; 10]%Z A = Some [41; 52; 63]%Z /\ vec_mat_dot ZO DotNT [1; 1; 1]%Z A = Some [6; 15]%Z /\
+  vec_mat_dot ZO DotNN [1; 1; 1]%Z A = None /\
+  vec_vec_dot ZO DotNN [1; 2; 3; 4; 5; 6; 7; 8; 9]%Z [1; 1; 1; 1; 1; 1; 1; 1; 2]%Z = Some 54%Z /\
+  vec_vec_dot ZO DotTT [1; 2]%Z [1]%Z = None /\
+  xtx ZO [1; 2; 3; 4; 5; 6]%Z 3 = Some [35; 44; 44; 56]%Z /\ xtx ZO [1; 2; 3; 4; 5]%Z 3 = None.
+Proof. cbv [wf_matrix nr nc dat length]. repeat split; try lia; vm_compute; reflexivity. Qed.
